@@ -299,6 +299,8 @@ fn model_categorise_dns_addresses() {
 }
 
 // ---- rank_dials, part 2: one group (group_delays) -------------------------------------------------
+// NOT REGISTERED as obligations: parts 2 and 3 time out (unit.json `measured`); kept for a
+// future attempt with a cheaper Vec model.
 
 /// transport part of an address of the alphabet, host irrelevant to the checks
 fn any_dial(id: u8) -> (PendingDial, Info) {
@@ -440,15 +442,13 @@ fn model_assemble_three() {
     }
 }
 
-/// Vacuity canary: must FAIL (claims TCP is never delayed behind QUIC).
+/// Vacuity canary: must FAIL (claims every IP address lands in the private group).
 #[kani::proof]
 #[kani::unwind(12)]
-fn canary_model_all_delays_zero() {
-    let mut dials = Vec::with_capacity(2);
-    for id in 0..2 {
-        dials.push(any_dial(id).0);
-    }
-    let out = group_delays(dials, PUBLIC_TCP_DELAY, PUBLIC_QUIC_DELAY, PUBLIC_OTHER_DELAY, Duration::ZERO);
-    assert!(out[0].0 == Duration::ZERO && out[1].0 == Duration::ZERO);
-    std::mem::forget(out);
+fn canary_model_every_ip_is_private() {
+    let (addr, _) = any_addr(false);
+    let (mut relay, mut public, mut private, mut other) =
+        (Bucket { got: 0 }, Bucket { got: 0 }, Bucket { got: 0 }, Bucket { got: 0 });
+    categorise(PendingDial { addr, id: 0 }, &mut relay, &mut public, &mut private, &mut other);
+    assert!(private.got == 1);
 }
